@@ -52,11 +52,13 @@ def native_test(world, crate, host_rel, test_src, test_name, release=True, timeo
         env = dict(prep.ENV, CARGO_TARGET_DIR=os.path.join(prep.CACHE, 'target-replay'))
         with prep.Lock('replay'):
             for prof in (['dev', 'release'] if release else ['dev']):
-                cmd = ['cargo', 'test', '--offline', '-p', crate, '--lib'] + (['--release'] if prof == 'release' else []) + ['verif_replay::' + test_name, '--', '--exact', '--nocapture', '--test-threads', '1']
+                cmd = ['cargo', 'test', '--offline', '-p', crate, '--lib'] + (['--release'] if prof == 'release' else []) + ['verif_replay::' + test_name, '--', '--nocapture', '--test-threads', '1']
                 p = subprocess.run(cmd, cwd=ws, env=env, stdout=subprocess.PIPE, stderr=subprocess.STDOUT, timeout=timeout)
                 txt = p.stdout.decode(errors='replace')
                 ran = re.search(r'test result: (ok|FAILED)\. (\d+) passed; (\d+) failed', txt)
-                if not ran or (int(ran.group(2)) + int(ran.group(3))) != 1:
+                if re.search(r'has overflowed its stack|SIGSEGV|SIGABRT|stack overflow', txt):
+                    out[prof] = (False, 'VERIF-VIOLATED process crashed: ' + txt[-1500:])
+                elif not ran or (int(ran.group(2)) + int(ran.group(3))) != 1:
                     out[prof] = (None, txt[-3000:])
                 else:
                     out[prof] = (ran.group(1) == 'ok', txt[-3000:])
